@@ -30,7 +30,7 @@ var eCmps = []NamedCmp[E]{
 		return cmp.Compare(a.ID, b.ID)
 	}},
 	{"coarse-P/3", func(a, b E) int { return cmp.Compare(floorDiv(a.P, 3), floorDiv(b.P, 3)) }},
-	{"min-by-P-unnormalised", func(a, b E) int { return cmp.Compare(a.P, b.P) * magnitude(uint64(a.P*31+b.P)) }},
+	{"min-by-P-unnormalised", func(a, b E) int { return scale(cmp.Compare(a.P, b.P), uint64(a.P*31+b.P)) }},
 }
 
 // HeapMon shadows a BinaryHeap or PriorityQueue with a multiset.
@@ -209,6 +209,9 @@ func (m *HeapMon) Check() {
 	if m.N > 700 && c.R.Intn(40) != 0 {
 		return
 	}
+	if m.N > 1500 && c.R.Intn(8) != 0 { // (half a second per Values() at 4000 elements)
+		return
+	}
 	vs := m.C.Values()
 	m.checkPerm("values", vs, p)
 	var walk []E
@@ -251,9 +254,86 @@ func (m *HeapMon) checkPerm(what string, vs []E, peek E) {
 
 var bulkCounts = []int{0, 2, 3, 4, 7, 8, 9, 15, 16, 17}
 
+// Level boundaries. The array behind a heap gains or loses a tree level at
+// sizes 2^k, and around them the last parent has no child, one child or two:
+// the places where sift-down variants (bottom-up, hole-based, with sentinels)
+// differ from the textbook one. The sweep visits every boundary up to 4096
+// from both sides with four value patterns: build to 2^k+delta, pop a few
+// times, then ONLY single pushes and pops (a bulk push re-heapifies and would
+// repair a misplaced element), then drain under the monitor.
+const heapBoundaryCases = 12 * 4 * 4 * 2
+
+func runHeapBoundary(c *core.Ctx, j int) {
+	r := c.R
+	queue := j%2 == 1
+	j /= 2
+	k := 1 + j%12
+	pattern := (j / 12) % 4
+	delta := []int{-1, 0, 1, 2}[(j/48)%4]
+	cm := eCmps[[]int{0, 1, 3, 5}[r.Intn(4)]]
+	var m *HeapMon
+	if queue {
+		m = newPQMon(c, cm)
+	} else {
+		m = newHeapMon(c, cm)
+	}
+	c.SetGapMax(40)
+	seq := 1 << 20
+	next := func(dir int) E {
+		switch pattern {
+		case 0: // ascending / continuing in direction dir
+			seq += dir * (1 + r.Intn(3))
+			return m.fresh(seq)
+		case 1:
+			seq -= dir * (1 + r.Intn(3))
+			return m.fresh(seq)
+		case 2:
+			return m.fresh(r.Intn(1 << 30))
+		default:
+			return m.fresh(r.Intn(4)) // ties
+		}
+	}
+	size := 1<<k + delta
+	for m.N < size {
+		m.DoPush([]E{next(1)})
+	}
+	for round := r.Range(1, 4); round > 0; round-- {
+		for p := r.Range(1, 3); p > 0; p-- {
+			m.DoPop()
+		}
+		for p := r.Range(1, 4); p > 0; p-- {
+			m.DoPush([]E{next(1)})
+		}
+	}
+	// keep the heap at this size while the values pushed so far are drained
+	for p := r.Range(0, size+8); p > 0; p-- {
+		m.DoPush([]E{next(1)})
+		if r.Intn(3) == 0 {
+			m.DoPop()
+		}
+	}
+	c.ObserveNow()
+	m.Check()
+	for m.N > 0 {
+		m.DoPop()
+	}
+	m.DoPop()
+	c.Count("heap:boundary-cases", 1)
+	c.Count("heap:drained", 1)
+	c.Nontrivial()
+}
+
 func runC06(c *core.Ctx) {
 	r := c.R
+	if c.Index < heapBoundaryCases {
+		runHeapBoundary(c, c.Index)
+		return
+	}
 	c.SetGaps((c.Index/2)%2 == 1)
+	if c.Index%5 == 3 {
+		runC06Types(c, c.Index/5)
+		return
+	}
 	cm := eCmps[r.Intn(len(eCmps))]
 	var m *HeapMon
 	if c.Index%2 == 0 {
@@ -276,7 +356,7 @@ func runC06(c *core.Ctx) {
 	if c.Index%40 == 7 {
 		steps = 2000
 	}
-	if c.Index%401 == 9 { // (401 is odd: both BinaryHeap and PriorityQueue get big cases)
+	if c.Index%131 == 9 && !c.Concurrent { // (131 is odd: both BinaryHeap and PriorityQueue get big cases)
 		// hundreds to thousands of elements, bulk pushes that cross level
 		// boundaries (255/256, 511/512, 1023/1024), priorities that keep
 		// producing new global minima (descending), maxima (ascending) or ties
@@ -296,13 +376,28 @@ func runC06(c *core.Ctx) {
 			}
 			return vs
 		}
-		target := []int{300, 520, 1030, 1100}[r.Intn(4)]
+		target := []int{300, 520, 1030, 1100, 2100, 4200}[r.Intn(6)]
 		for m.N < target {
 			m.DoPush(genP([]int{1, 2, 3, 17, 64, 255, 256, 257}[r.Intn(8)]))
 			if r.Intn(3) == 0 {
 				m.DoPop()
 			}
 		}
+		// hold the size around the target with single pushes and pops in runs of
+		// random length (sift paths that end at the last parent, at a lone left
+		// child, at either end of the bottom level; no bulk push in between that
+		// would re-heapify and repair a misplaced element)
+		for k, hold := 0, r.Range(300, 900); k < hold; {
+			for run := r.Range(1, 6); run > 0; run-- {
+				m.DoPop()
+				k++
+			}
+			for m.N < target+r.Range(-3, 3) {
+				m.DoPush(genP(1))
+				k++
+			}
+		}
+		c.Count("heap:big-hold-phases", 1)
 		for k := 0; k < target/3; k++ {
 			m.DoPop()
 			if r.Intn(4) == 0 {
@@ -362,12 +457,14 @@ func runC06(c *core.Ctx) {
 
 func init() {
 	core.Register(&core.Prop{
-		ID:    "C06",
-		Title: "Heap and priority queue always yield a minimum and never lose elements",
-		Cases: func(tier string) int { return tierN(tier, 16000, 400000) },
-		Run:   runC06,
-		Rule: "random interleavings of Push(1 value), bulk Push(k values, k in {0,2,3,4,7,8,9,15,16,17}), Pop/Dequeue, Peek, Clear and FromJSON/json.Unmarshal of arrays in arbitrary, ascending or descending order on BinaryHeap and PriorityQueue, " +
+		ID:      "C06",
+		Title:   "Heap and priority queue always yield a minimum and never lose elements",
+		Cases:   func(tier string) int { return tierN(tier, 16000, 400000) },
+		Run:     runC06,
+		ParSkip: func(string) int { return heapBoundaryCases + 16 },
+		Rule: "the first 384 cases sweep the level boundaries: heaps and queues built to 2^k-1, 2^k, 2^k+1, 2^k+2 elements for every k up to 12 with ascending, descending, random and tied values, popped a few times and then driven by single pushes and pops only, then drained. The others: random interleavings of Push(1 value), bulk Push(k values, k in {0,2,3,4,7,8,9,15,16,17}), Pop/Dequeue, Peek, Clear and FromJSON/json.Unmarshal of arrays in arbitrary, ascending or descending order on BinaryHeap and PriorityQueue, " +
 			"elements {P, unique ID} under five comparators (min, max, all-equal, total, coarsened => ties between distinguishable elements); after every call Size, Peek minimality, Values() and a full iterator walk are compared with a multiset; every case ends with a full drain. " +
+			"One case in 131 is big: 300 to 4200 elements built with bulk pushes across level boundaries, then held at that size by runs of single Pops and Pushes. One case in five runs the same multiset monitor over other element types: interface values holding slices (not comparable with ==), float64 incl. NaN, the infinities and both zeros (identified by their bits), pointers incl. nil, int and string on heaps built by New (built-in order), and structs with an omit-when-empty JSON field loaded by FromJSON from documents with omitted fields and null entries. " +
 			"Every case is non-trivial (>= 20 calls and a drain); distinct = distinct hash of the call list.",
 		Floors: func(tier string, m map[string]int64) []string {
 			f := &floorCheck{m: m}
@@ -379,6 +476,12 @@ func init() {
 			f.atLeast("heap:values+iteration", 100000)
 			f.atLeast("call:BinaryHeap.Clear", 100)
 			f.atLeast("call:PriorityQueue.Clear", 100)
+			f.atLeast("heap:big-hold-phases", 50)
+			f.atLeast("heap:boundary-cases", heapBoundaryCases)
+			for _, n := range heapTypeNames {
+				f.atLeast("heaptypes:"+n, 200)
+			}
+			f.atLeast("heaptypes:fromjson", 2000)
 			return f.missing
 		},
 		Files: []string{"trees/binaryheap/binaryheap.go", "trees/binaryheap/iterator.go", "trees/binaryheap/serialization.go", "queues/priorityqueue/priorityqueue.go", "queues/priorityqueue/serialization.go"},
